@@ -12,6 +12,9 @@ CLAIMS = {
  "C10": dict(ref="5/C10",
    text="ParseUint is compared with an independent decimal reference on every byte string of each length 1..22 (all 2^(8n) inputs per length, symbolic): value exact, overflow exactly at 2^64, syntax errors classified; decided by z3 bit-vector queries.",
    note="Claims the integer-parsing kernel and token accessors only; shortest float formatting / correctly rounded parsing live in strconv and are outside this technique's reach."),
+ "C11": dict(ref="5/C11",
+   text="For every byte string up to the length bound (all 256 values per byte: n<=3 quick / n<=4 thorough for quoting, n<=4/5 for scanning, plus \\uXXXX / surrogate-pair templates with symbolic hex digits) and every EscapeForHTML/EscapeForJS/AllowInvalidUTF8/PreserveRawStrings combination listed, the solver shows AppendQuote equals the independent minimal-literal reference, errors exactly on disallowed ill-formed UTF-8, AppendUnquote/UnquoteMayCopy return the RFC 8259 meaning (one U+FFFD per ill-formed byte), ConsumeString accepts exactly the string grammar with sound verbatim/canonical flags, and ReformatString preserves meaning, leaves no raw escapable character and copies verbatim under PreserveRawStrings.",
+   note="Bounded string lengths; paths through the Encoder/Format layers are covered by C06/C12 obligations. Trusted: gosym semantics (replay-validated), z3, zzspec.MinimalQuote/Unescape/ScanString."),
  "C19": dict(ref="5/C19",
    text="Flags.Set/Join/Clear/Get/Has are shown, for all 64-bit presence/value words satisfying the representation invariant, all argument words and a symbolic key, to implement a last-wins map and to preserve the invariant (one inductive step, hence every history); DefaultOptionsV2 cancels every v1 flag after any intermediate join. Both z3 and cvc5 must agree on every assertion query.",
    note="Full 64-bit width, no bound on history length for the flag algebra (inductive step). Behavioural irrelevance of options for typed Marshal/Unmarshal is outside the claim."),
